@@ -277,7 +277,11 @@ func (cr *checkRun) runHarness(h H, native bool) {
 	}
 	fn := sp.Func(h.Fn)
 	if fn == nil {
-		cr.problems = append(cr.problems, "no harness function "+h.Fn)
+		msg := "no harness function " + h.Fn
+		if len(cr.prog.Dropped) > 0 {
+			msg += " (harness files that do not compile against this tree were left out: " + strings.Join(cr.prog.Dropped, ", ") + ")"
+		}
+		cr.problems = append(cr.problems, msg)
 		return
 	}
 	opts := gose.ExploreOpts{Workers: 16, MaxPaths: h.MaxPaths, Solver: cr.solver, Params: h.Params, Verbose: cr.verbose, CrossSolver: cr.cross, SampleModels: 3}
